@@ -110,6 +110,11 @@ def main():
         env[name] = v
         found.append(name)
         defs.append("def %s : Nat := %d" % (name, v))
+        if name == "DEFAULT_MESSAGE_MAX_LEN":
+            # the readers slice `buffer[..total_len]` with total_len <= 16 + 65535: the property needs the
+            # buffer to be at least that long; a larger one is as good (the model's bound is the minimum)
+            ties.append("theorem tie_%s : %s ≤ Src.%s := by decide" % (name, model, name))
+            continue
         ties.append("theorem tie_%s : Src.%s = %s := by decide" % (name, name, model))
     for name, (f, model) in BYTES.items():
         if f not in srcs:
